@@ -89,6 +89,10 @@ def scenario_strategy() -> Any:
                     if n > 1:
                         out[f"{ph}:{attempt}"] = {"copies": [{"lose": False, "d": 0.02 * i} for i in range(n)], "echo": True}
                     continue
+                if mode == "delays":  # nothing lost, echo kept: only the far end hears the frame late (first transmission)
+                    if attempt == 1 and draw(st.booleans()):
+                        out[f"{ph}:{attempt}"] = {"copies": [{"lose": False, "d": draw(st.sampled_from((0.3, 0.7, 1.5, 2.5, 2.9, 3.1, 4.0, 4.5, 4.9, 5.2)))}], "echo": True}
+                    continue
                 if draw(st.integers(0, 2)) == 0:
                     continue
                 out[f"{ph}:{attempt}"] = {"copies": draw(st.lists(copy, min_size=1, max_size=3)), "echo": draw(st.integers(0, 5)) > 0}
@@ -98,9 +102,9 @@ def scenario_strategy() -> Any:
     def scenario(draw: Any) -> dict:
         fi = draw(st.integers(0, len(FLOWS) - 1))
         flow = FLOWS[fi]
-        mode = draw(st.sampled_from(("clean", "dups", "dups", "faults", "faults", "faults")))
+        mode = draw(st.sampled_from(("clean", "dups", "dups", "delays", "delays", "faults", "faults", "faults")))
         third = []
-        for _ in range(draw(st.integers(0, 3)) if mode != "clean" else 0):
+        for _ in range(draw(st.integers(0, 3)) if mode not in ("clean", "delays") else 0):
             third.append({"t": draw(st.sampled_from((0.05, 0.3, 0.6, 1.0, 2.0, 3.05, 4.0, 6.0))), "kind": draw(st.sampled_from(("offer", "orcon-offer", "accept", "confirm", "addenda")))})
         return {"flow": fi, "mode": mode, "fates": draw(fates(mode)), "third": third, "after_offer_only": True,
                 "start": {"resp": draw(st.sampled_from((0.0, 0.0, 0.5, 1.0, 4.9))), "supp": draw(st.sampled_from((0.0, 0.1, 1.0, 4.9, 5.2)))},
@@ -290,6 +294,57 @@ def faultless(case: dict) -> bool:
     return True
 
 
+MARGIN = 0.35
+
+
+def _in_time_expectations(case: dict, att: dict, flow: dict) -> list[tuple[str, str, str]]:
+    """Roles that must succeed although frames were delayed: nothing lost, echoes kept, no third-party traffic, and every
+    frame reached the waiting end at least MARGIN before the end of that end's stated wait. Times come from the ether log."""
+    if case.get("third"):
+        return []
+    for f in case["fates"].values():
+        if not f.get("echo", True) or any(c["lose"] for c in f["copies"]):
+            return []
+    t0 = att["t0"]
+    s_id, r_id = flow["supp"][0], flow["resp"][0]
+
+    def first(ph: str, src: str) -> tuple[float, float] | None:
+        """(time on air, arrival at the far end) of the first transmission of this phase; None if more than one (retries)."""
+        es = [e for e in att["log"] if e["phase"] == ph and e["frame"][7:16] == src and e["from"] != "third"]
+        if len(es) != 1:
+            return None
+        e = es[0]
+        d = min((c["d"] for c in (e["fate"] or {"copies": [{"d": 0.0}]})["copies"]), default=0.0)
+        return e["t"] - t0, e["t"] - t0 + d
+
+    out: list[tuple[str, str, str]] = []
+    rr, ss = att.get("resp"), att.get("supp")
+    if not rr or not ss:
+        return out
+    off, acc, con = first("offer", s_id), first("accept", r_id), first("confirm", s_id)
+    if off is None:
+        return out
+    r_start, s_start = rr["t_start"], ss["t_start"]
+    offer_ok = r_start + 0.05 <= off[1] <= r_start + 5.0 - MARGIN  # the respondent was listening, and for < 5 s
+    if not offer_ok or acc is None:
+        return out
+    # supplicant: waits 5 s (from the end of its offer send; its state's own timer runs 5.1 s from the start of the attempt)
+    accept_ok = acc[1] <= min(off[0] + 5.0, s_start + 5.1) - MARGIN
+    if accept_ok:
+        out.append(("supp", "accept", f"the accept reached it {acc[1] - off[0]:.2f} s after its offer (stated wait: 5 s)"))
+    if con is None or not accept_ok:
+        return out
+    confirm_ok = con[1] <= acc[0] + 3.0 - MARGIN
+    if not confirm_ok:
+        return out
+    if case.get("ratify") and flow["ratify"]:
+        add = first("addenda", s_id)
+        if add is None or not (con[1] + 0.01 <= add[1] <= con[1] + 3.0 - MARGIN):  # (the addenda must not overtake the confirm)
+            return out
+    out.append(("resp", "confirm", f"offer, confirm (and addenda) reached it inside its 5 s / 3 s waits (confirm {con[1] - acc[0]:.2f} s after its accept)"))
+    return out
+
+
 def judge(case: dict, obs: dict) -> list[tuple[dict, str]]:
     out: list[tuple[dict, str]] = []
     flow = FLOWS[case["flow"]]
@@ -312,6 +367,13 @@ def judge(case: dict, obs: dict) -> list[tuple[dict, str]]:
                 elif clean:
                     out.append(({"clause": "fails-without-loss", "role": role, "attempt": which, "third": bool(case.get("third")) and k == 0},
                                 f"{flow['name']}: {role}: {rec['exc']}: {rec['text']}"))
+        # stated waits: a frame that reaches the waiting end well inside its stated wait (offer 5 s, accept 5 s, confirm 3 s,
+        # addenda 3 s) must be accepted - giving up earlier is not 'ending within its stated waits'
+        if k == 0:
+            for role, ph, why in _in_time_expectations(case, att, flow):
+                rec = att.get(role)
+                if rec and rec["outcome"] == "raised" and rec.get("is_binding_error"):
+                    out.append(({"clause": "gives-up-inside-stated-wait", "role": role, "phase": ph}, f"{flow['name']}: {role} raised {rec['exc']} ({rec['text'][:80]}) although {why}"))
         if att["is_binding_settled"]["resp"] or att["is_binding_settled"]["supp"]:
             out.append(({"clause": "still-binding-afterwards", "attempt": which, "who": "+".join(r for r in ("resp", "supp") if att["is_binding_settled"][r])},
                         f"{flow['name']}: is_binding after the attempt ended: {att['is_binding_after']} -> {att['is_binding_settled']}; outcomes "
@@ -384,7 +446,7 @@ def run(ctx: Ctx, col: Collector) -> None:
         "is_binding is read 12 s after both tasks have ended (the state classes' own 5.1 s timers may still be pending when a task raises early)",
     ]
     ctx.parallel(explore, ctx.shards(ctx.n(4000, 120_000), per_shard_min=5), col)
-    ctx.floors = [("mode:dups", "scn", 0.15), ("mode:faults", "scn", 0.3), ("third-party", "scn", 0.2)]
+    ctx.floors = [("mode:dups", "scn", 0.15), ("mode:faults", "scn", 0.25), ("mode:delays", "scn", 0.15), ("third-party", "scn", 0.2)]
 
 
 def replay(case: dict) -> list[tuple[dict, str]]:
